@@ -316,19 +316,20 @@ Section PoolFacts.
     - eapply delete_block_preserves_ok; eauto.
   Qed.
 
-  Hypothesis Hfav : forall ks ss m ks',
+  Variable key_ok : key -> Prop.
+  Hypothesis Hfav : forall ks ss m ks', Forall key_ok ks ->
     Forall2 (fun k s => vrf k m s = true) ks ss -> ks <> [] -> Permutation ks ks' -> fav ks' m (agg ss) = true.
   Hypothesis Hlen : forall ss, sig_len0 (agg ss) = false.
 
   Theorem reachable_assembles_accepted : forall e p,
-    chain_wf e -> params_wf e -> reachable e p ->
+    chain_wf e -> params_wf key_ok e -> reachable e p ->
     good_result sigT msgT sig_len0 msg_of fav e (get_aggregate_commit agg e (gossiped p) (nongossiped p)).
   Proof.
     intros. eapply assemble_accepts; eauto. apply reachable_ok; auto.
   Qed.
 
   Theorem reachable_chain_assembles_accepted : forall e p,
-    params_wf e -> reachable_chain e p ->
+    params_wf key_ok e -> reachable_chain e p ->
     good_result sigT msgT sig_len0 msg_of fav e (get_aggregate_commit agg e (gossiped p) (nongossiped p)).
   Proof.
     intros. eapply assemble_accepts; eauto. apply reachable_chain_ok; auto.
